@@ -96,6 +96,24 @@ INFO = {
     "C03-a3": ("C03", "can_backdate refuses to backdate when the old memo was fully tracked and the new execution read untracked state",
                "a function that is tracked in its first execution, is legitimately re-executed after a write and then reports an untracked read for the first time with an equal value: its dependent is re-executed without a justification",
                ["C03"]),
+    "C21-a3": ("C21", "CancellationToken::cancel uses compare_exchange(0, CANCELLED) instead of fetch_or: a cancel that arrives while the DISABLED bit is set is lost",
+               "cancel() arriving exactly while the target handle executes inside a function with cycle recovery configured, followed by another tracked-function request outside it",
+               ["C21"]),
+    "C22-a3": ("C22", "the unwind guard of tracked_struct::update releases the write lock by stamping the struct as updated in the current revision instead of restoring the previous stamp",
+               "a panic in a tracked field's PartialEq while the creator re-creates the struct with different fields, then a retry in the same revision: the field update is skipped",
+               ["C22"]),
+    "C24-a3": ("C24", "Storage::clone forks the parent's ZalsaLocal including its page hints: parent and clones allocate from the same page",
+               "a handle that already allocated a struct of an ingredient is cloned; parent and clone create structs of that ingredient concurrently",
+               ["C24"]),
+    "C16-a3": ("C16", "take_non_full_page peeks instead of popping (same mechanism as C24-a1, delivered independently for C16)",
+               "a dropped handle that left a partly filled page; two later handles allocating that ingredient with overlapping fill-level loads: two structs share an id and one reader returns the other's data",
+               ["C16", "C24"]),
+    "C17-a3": ("C17", "LazyMemoEntries::initialize publishes its array with a plain store instead of compare_exchange",
+               "two threads finishing the first execution of two different functions keyed by the same new struct; the memo stored in the overwritten array is lost and the function runs again in the same revision",
+               ["C17"]),
+    "C20-a3": ("C20", "cancel_others bumps the cancellation count only if another handle still exists when it takes the clones lock",
+               "a reader cancelled mid-fixpoint by a revision-preserving write drops its handle between the flag being set and the clones lock; the cycle is re-queried in that revision and answers PropagatedPanic",
+               ["C20"]),
 }
 
 
